@@ -168,8 +168,14 @@ func genOp(t *rapid.T, pre bool, seenTags []string, seenObjs []Obj) Op {
 		if pick(t, "cfgblob", 6) == 0 {
 			o = Obj{"config", pick(t, "cfg", nImages)}
 		}
+		switch pick(t, "smallblob", 8) {
+		case 0:
+			o = Obj{"empty", 0}
+		case 1:
+			o = Obj{"payload", pick(t, "payload", nArtifacts)}
+		}
 		op = Op{Kind: "blob", Obj: o, Desc: weighted(t, "blobdesc",
-			[]string{"", "none", "digest-only", "size-only", "wrong-digest", "wrong-size"}, []int{40, 20, 12, 12, 8, 8})}
+			[]string{"", "none", "digest-only", "size-only", "wrong-digest", "wrong-size", "inline"}, []int{34, 18, 10, 10, 7, 7, 14})}
 	case "blobdel":
 		op = Op{Kind: "blobdel", Obj: Obj{"blob", pick(t, "blob", nBlobs)}}
 	case "put":
@@ -370,6 +376,9 @@ func dims(c Case) []string {
 			if (o.T == "image" && o.N == 6) || (o.T == "index" && o.N == 5) {
 				add("duplicate-entries-in-manifest")
 			}
+			if inlineData(o) {
+				add("inline-data-descriptors:put")
+			}
 		case "mandel":
 			if op.RefForm != "" {
 				add("mandel-ref=" + op.RefForm)
@@ -390,6 +399,9 @@ func dims(c Case) []string {
 			}
 			if so, ok := srcObj(op.Src); ok && !op.Self {
 				add("copy-of=" + so.T)
+				if inlineData(so) {
+					add("inline-data-descriptors:copy")
+				}
 			}
 		case "import":
 			st := op.TarStyle
@@ -399,6 +411,9 @@ func dims(c Case) []string {
 			add("import-tar=" + st)
 			if op.RefForm == "digest" {
 				add("import-to-digest")
+			}
+			if inlineData(o) && op.TarStyle != "docker" {
+				add("inline-data-descriptors:import")
 			}
 		}
 	}
@@ -491,7 +506,7 @@ func expand(c Case, e *env, dir string) (pre, victim []DrvOp, kinds []string, er
 			}
 			last = blobOp(o, op.NoDesc)
 			switch op.Desc {
-			case "none", "digest-only", "size-only", "wrong-digest", "wrong-size":
+			case "none", "digest-only", "size-only", "wrong-digest", "wrong-size", "inline":
 				last.DescMode = op.Desc
 				last.what += " desc=" + op.Desc
 			}
@@ -1998,6 +2013,17 @@ func kindMatrix() []Case {
 		{Victim: []Op{{Kind: "blob", Obj: Obj{"blob", 4}, Desc: "wrong-size"}, {Kind: "blob", Obj: Obj{"blob", 4}}}},
 		{Pre: pp(), Victim: []Op{{Kind: "blob", Obj: Obj{"blob", 1}}}}, // the blob is already there
 		{Pre: pp(), Victim: []Op{{Kind: "blobdel", Obj: Obj{"blob", 1}}}},
+		// descriptors that carry their content inline ("data"): direct put, copy, import; the blob
+		// absent (fresh) and already stored (the populated pre-history holds {} and blob 1)
+		{Victim: []Op{{Kind: "blob", Obj: Obj{"empty", 0}, Desc: "inline"}, {Kind: "blob", Obj: Obj{"empty", 0}, Desc: "inline"}}},
+		{Pre: pp(), Victim: []Op{{Kind: "blob", Obj: Obj{"empty", 0}, Desc: "inline"}, {Kind: "blob", Obj: Obj{"blob", 8}, Desc: "inline"}}},
+		{Pre: pp(), Victim: []Op{{Kind: "copy", Src: "i8", Tag: "inl"}}},
+		{Victim: []Op{{Kind: "copy", Src: "a7", Tag: "inl", Referrers: true}}},
+		{Pre: pp(), Victim: []Op{{Kind: "copy", Src: "a7", Tag: "inl"}, {Kind: "close"}}},
+		{Pre: pp(), Victim: []Op{{Kind: "copy", Src: "x7", Tag: "inl"}}},
+		{Pre: pp(), Victim: []Op{{Kind: "import", Obj: Obj{"image", 8}, Tag: "inl"}}},
+		{Victim: []Op{{Kind: "import", Obj: Obj{"image", 8}, Tag: "inl", TarStyle: "reversed"}}},
+		{Pre: pp(), Victim: []Op{{Kind: "put", Obj: Obj{"artifact", 7}, Tag: "inl"}}, Prep: true},
 		// copy options
 		{Pre: append(pp(), Op{Kind: "copy", Src: "a0", Tag: "sig"}), Victim: []Op{{Kind: "copy", Src: "a0", Tag: "sig", Referrers: true, Force: true}}},
 		{Pre: pp(), Victim: []Op{{Kind: "copy", Src: "x0", Tag: "v1", Fast: true, DigestTags: true}}},
